@@ -759,6 +759,11 @@ func runRoots(c *engine.Ctx) engine.Result {
 		Assumptions: []string{"ties between a stored instant and now are excluded (>= 1 min margin, else the action is not asserted)", "clauses about carried-over roots are not re-asserted on crafted pre-states that do not satisfy them", "lifetimes shorter than a call's duration are excluded"},
 	}
 	if c.Replay != nil {
+		var mc rootsMigrateCase
+		if err := json.Unmarshal(c.Replay, &mc); err == nil && mc.Kind == "migrate" {
+			runRootsMigrate(c, mc)
+			return res
+		}
 		var rc rootsCase
 		if err := json.Unmarshal(c.Replay, &rc); err != nil {
 			r.Broken("bad replay")
@@ -883,6 +888,9 @@ func runRoots(c *engine.Ctx) engine.Result {
 	}
 	sort.SliceStable(cases, func(i, j int) bool { return cases[i].Backend < cases[j].Backend })
 	engine.ForEach(len(cases), engine.Workers(), func(i int) { runRootsCase(c, cases[i]) })
+	runRootsMigrations(c)
+	r.Require("migrate:returned_equals_stored", 3)
+	r.Require("migrate:rotation-replaced-a-root", 2)
 	r.Require("calls_refused_on_insert_only_storage", 20)
 	for _, a := range []string{"nochange", "promote", "remint-next", "startover"} {
 		r.Require("action_as_expected:"+a, 5)
